@@ -60,3 +60,13 @@ Fixpoint islice (fuel : nat) (vis : msg -> bool) (rules : list (string * rhs)) (
       | Tm _ => None
       end
   end.
+
+(* every member of a sequence denotes some word, hereditarily: the side condition under which removing a member of a sequence is the
+   same as not seeing it (an infeasible member, e.g. a repetition {3,2}, makes the whole sequence infeasible in the unsliced protocol) *)
+Fixpoint hp (r : mre) : bool :=
+  match r with
+  | REmp _ | REps _ | RAtom _ _ => true
+  | RAlt _ a b => hp a && hp b
+  | RCat _ a b => hp a && hp b && nonempty msg a && nonempty msg b
+  | RRep _ a _ _ => hp a
+  end.
